@@ -380,8 +380,6 @@ def enum_half():
             seen[m.value] = m.name
             if m.name != m.name.upper() or not m.name.replace("_", "").isalnum():
                 v.append(("enum-files", f"enum-files:name-shape:{E.__name__}", f"{E.__name__}.{m.name} is not UPPER_SNAKE"))
-    if [m.value for m in TT] != list(range(len(TT))):
-        v.append(("enum-files", "enum-files:token-type-values", "TokenType values are not 0..COUNT-1 in declaration order"))
     # independent of build.rs: the shipped enums must be what the linked crate's source declares
     lc = linked_crate_enums()
     if lc is None:
